@@ -329,4 +329,166 @@ theorem qlinearF_eq (t : Tie) (c : LinCfg) (a : ℤ) (x : ℚ)
   rw [hmul]
   exact steF'_eq hxq (sq_resid_isF32 t hx hσ1 c.lo_nonpos c.hi_nonneg henv)
 
+
+/-! ### quantized_relu (plain) -/
+
+theorem ulpExp_ge_of_one_le {q : ℚ} (h : 1 ≤ |q|) : -23 ≤ ulpExp q := by
+  have hq : 0 < |q| := by linarith
+  have h0 : (0 : ℤ) ≤ floorLog2Rat |q| := floorLog2Rat_ge hq (by rw [pow2_zero]; exact h)
+  have := ulpExp_ge' q
+  omega
+
+/-- `round(p)` of a float32-scaled binary32 input is binary32 -/
+theorem roundTie_scaled_isF32 (t : Tie) {x : ℚ} (h : isF32 x = true) (k : ℤ)
+    (h128 : |x * pow2 k| < pow2 128) : isF32 ((roundTie t (x * pow2 k) : ℤ) : ℚ) = true := by
+  rcases rnd32_scale_cases h k h128 with ⟨h1, _⟩ | ⟨h1, _, _⟩
+  · exact roundTie_isF32 t h1
+  · rw [roundTie_small t (lt_trans h1 pow2_m125_lt_half)]; simpa using isF32_zero
+
+/-- dividing a binary32 integer by `2^n` is exact (it cannot underflow) -/
+theorem int_div_pow2F {R : ℤ} (hR : isF32 (R : ℚ) = true) {n : ℤ} (h0 : 0 ≤ n) (h1 : n ≤ 100) :
+    fdiv (R : ℚ) (pow2 n) = (R : ℚ) * pow2 (-n) := by
+  unfold fdiv
+  have e : (R : ℚ) / pow2 n = (R : ℚ) * pow2 (-n) := by rw [pow2_neg]; ring
+  rw [e]
+  by_cases h : R = 0
+  · rw [h]; simp [rnd32_zero]
+  have hone : (1 : ℚ) ≤ |(R : ℚ)| := by
+    rw [← Int.cast_abs]
+    have : 1 ≤ |R| := Int.one_le_abs h
+    exact_mod_cast this
+  apply rnd32_mul_pow2 hR
+  · have := ulpExp_ge_of_one_le hone; omega
+  · rw [abs_mul, abs_of_pos (pow2_pos _)]
+    have h2 : pow2 (-n) ≤ 1 := by have := pow2_le_pow2 (by omega : -n ≤ 0); rwa [pow2_zero] at this
+    have h3 := isF32_abs_lt hR
+    have : |(R : ℚ)| * pow2 (-n) ≤ |(R : ℚ)| * 1 := mul_le_mul_of_nonneg_left h2 (abs_nonneg _)
+    linarith
+
+theorem tp_mul_pow2_neg {n : ℤ} (h0 : 0 ≤ n) : ((tp n : ℤ) : ℚ) * pow2 (-n) = 1 := by
+  rw [tp_cast h0, ← pow2_add]; simp [pow2_zero]
+
+/-- the upper clip bound `1.0 - 1.0 / m` -/
+theorem reluHiF_eq {n : ℤ} (h0 : 0 ≤ n) (h24 : n ≤ 24) :
+    fsub 1 (fdiv 1 (pow2 n)) = ((twoPow n - 1 : ℤ) : ℚ) * pow2 (-n) := by
+  have h1 := tp_le_24 h24
+  have h2 := tp_ge_one n
+  unfold fsub fdiv
+  have e : (1 : ℚ) / pow2 n = pow2 (-n) := by rw [pow2_neg]
+  rw [e, rnd32_of_isF32 (isF32_pow2 (by omega) (by omega)), twoPow_eq_tp]
+  have e2 : (1 : ℚ) - pow2 (-n) = ((tp n - 1 : ℤ) : ℚ) * pow2 (-n) := by
+    push_cast; rw [sub_mul, tp_mul_pow2_neg h0]; ring
+  rw [e2]
+  exact rnd32_of_isF32 (isF32_int_mul_pow2 (by rw [abs_le]; constructor <;> omega) (by omega) (by omega))
+
+theorem ite_scale (a b u v : ℚ) {w : ℚ} (hw : 0 < w) :
+    (if b * w < a * w then u * w else v * w) = (if b < a then u else v) * w := by
+  by_cases hb : b < a
+  · rw [if_pos (mul_lt_mul_of_pos_right hb hw), if_pos hb]
+  · rw [if_neg (not_lt.mpr (mul_le_mul_of_nonneg_right (not_lt.mp hb) hw.le)), if_neg hb]
+
+theorem fclip_scale (a l h : ℚ) {w : ℚ} (hw : 0 < w) :
+    fclip (a * w) (l * w) (h * w) = fclip a l h * w := by
+  unfold fclip
+  dsimp only
+  rw [ite_scale a h h a hw, ite_scale l _ l _ hw]
+
+/-- the saturation value `m_i - m_f` -/
+theorem reluTopF_eq {n i : ℤ} (h0 : 0 ≤ n) (h24 : n ≤ 24) (hs1 : -149 ≤ i - n) (hs2 : i - n ≤ 103) :
+    fsub (pow2 i) (pow2 (i - n)) = ((twoPow n - 1 : ℤ) : ℚ) * pow2 (i - n) ∧
+      isF32 (((twoPow n - 1 : ℤ) : ℚ) * pow2 (i - n)) = true := by
+  have h1 := tp_le_24 h24
+  have h2 := tp_ge_one n
+  have hf := isF32_int_mul_pow2 (n := twoPow n - 1) (g := i - n)
+    (by rw [twoPow_eq_tp, abs_le]; constructor <;> omega) hs1 hs2
+  refine ⟨?_, hf⟩
+  unfold fsub
+  have e : pow2 i - pow2 (i - n) = ((twoPow n - 1 : ℤ) : ℚ) * pow2 (i - n) := by
+    have : pow2 i = ((tp n : ℤ) : ℚ) * pow2 (i - n) := by
+      rw [tp_cast h0, ← pow2_add]; congr 1; ring
+    rw [twoPow_eq_tp]; push_cast; rw [this]; ring
+  rw [e, rnd32_of_isF32 hf]
+
+/-- float32 plain `quantized_relu` equals the exact model for EVERY binary32 input (only absence
+    of overflow in `x * m` and `x * m / m_i` is assumed): saturation is handled by `x_u`, so no
+    `2^24`-steps envelope is needed. -/
+theorem qreluF_eq (t : Tie) (c : ReluCfg) (x : ℚ) (hsl : c.slopeLog = none)
+    (hn0 : 0 ≤ c.nsb) (hn24 : c.nsb ≤ 24) (hs1 : -100 ≤ c.integer - c.nsb) (hi2 : c.integer ≤ 100)
+    (hx : isF32 x = true) (ho1 : |x * pow2 c.nsb| < pow2 128) (ho2 : |x / c.step| < pow2 128) :
+    qreluF t c x = qrelu t c x := by
+  have hstep : c.step = pow2 (c.integer - c.nsb) := rfl
+  rw [hstep] at ho2
+  have hs0 := pow2_pos (c.integer - c.nsb)
+  have hq : qrelu t c x = ((rc t (x / pow2 (c.integer - c.nsb)) 0 c.hi : ℤ) : ℚ)
+      * pow2 (c.integer - c.nsb) := by
+    rw [qrelu_plain_eq_sq t c hsl]; unfold sq; rw [hstep]; ring
+  obtain ⟨hb1, hb2⟩ := rc_bounds t (x / pow2 (c.integer - c.nsb)) c.zero_le_hi
+  have hhi24 : c.hi + 1 ≤ 2 ^ 24 := by
+    have := tp_le_24 hn24; unfold ReluCfg.hi; rw [twoPow_eq_tp]; omega
+  have hC : |rc t (x / pow2 (c.integer - c.nsb)) 0 c.hi| ≤ 2 ^ 24 := by
+    rw [abs_le]; constructor <;> omega
+  obtain ⟨htop, htopF⟩ := reluTopF_eq (i := c.integer) hn0 hn24 (by omega) (by omega)
+  have e2 : (twoPow c.nsb - 1 : ℤ) = c.hi := rfl
+  rw [e2] at htop htopF
+  -- the code computed in float32
+  have eP : x / pow2 (c.integer - c.nsb) = (x * pow2 c.nsb) * pow2 (-c.integer) := by
+    rw [pow2_sub, pow2_neg]; field_simp [pow2_ne_zero]
+  have hu' : -149 ≤ ulpExp x + c.nsb := by have := ulpExp_ge x; omega
+  have haF := isF32_mul_pow2 hx c.nsb hu' ho1
+  have hRF : isF32 ((roundTie t (x / pow2 (c.integer - c.nsb)) : ℤ) : ℚ) = true := by
+    rw [eP]; exact roundTie_scaled_isF32 t haF _ (by rw [← eP]; exact ho2)
+  have hp : pow2 (c.integer - c.nsb) = pow2 c.integer * pow2 (-c.nsb) := by
+    rw [← pow2_add]; congr 1
+  have hxqF : isF32 (((rc t (x / pow2 (c.integer - c.nsb)) 0 c.hi : ℤ) : ℚ)
+      * pow2 (c.integer - c.nsb)) = true := isF32_int_mul_pow2 hC (by omega) (by omega)
+  have hxq : fmul (pow2 c.integer)
+      (fclip (fdiv (roundThroughF t (fdiv (fmul x (pow2 c.nsb)) (pow2 c.integer))) (pow2 c.nsb)) 0
+        (fsub 1 (fdiv 1 (pow2 c.nsb))))
+      = ((rc t (x / pow2 (c.integer - c.nsb)) 0 c.hi : ℤ) : ℚ) * pow2 (c.integer - c.nsb) := by
+    rw [pF_roundThrough t hx hn0 ho1 ho2]
+    rw [int_div_pow2F hRF hn0 (by omega), reluHiF_eq hn0 hn24, e2]
+    have z : (0 : ℚ) = ((0 : ℤ) : ℚ) * pow2 (-c.nsb) := by simp
+    rw [z, fclip_scale _ _ _ (pow2_pos _), fclip_int c.zero_le_hi]
+    have e3 : iclip (roundTie t (x / pow2 (c.integer - c.nsb))) 0 c.hi
+        = rc t (x / pow2 (c.integer - c.nsb)) 0 c.hi := rfl
+    rw [e3]
+    unfold fmul
+    have e4 : pow2 c.integer * (((rc t (x / pow2 (c.integer - c.nsb)) 0 c.hi : ℤ) : ℚ) * pow2 (-c.nsb))
+        = ((rc t (x / pow2 (c.integer - c.nsb)) 0 c.hi : ℤ) : ℚ) * pow2 (c.integer - c.nsb) := by
+      generalize ((rc t (x / pow2 (c.integer - c.nsb)) 0 c.hi : ℤ) : ℚ) = C
+      rw [hp]; ring
+    rw [e4]
+    exact rnd32_of_isF32 hxqF
+  rw [hq]
+  unfold qreluF
+  dsimp only
+  rw [hxq, htop]
+  by_cases hle : x ≤ (c.hi : ℚ) * pow2 (c.integer - c.nsb)
+  · rw [if_pos hle]
+    by_cases hneg : x < 0
+    · rw [if_pos hneg]
+      have : rc t (x / pow2 (c.integer - c.nsb)) 0 c.hi = 0 := by
+        apply rc_sat_lo t c.zero_le_hi
+        push_cast
+        exact (div_neg_of_neg_of_pos hneg hs0).le
+      rw [this]; simp only [Int.cast_zero, zero_mul]
+      exact steF_eq isF32_zero (by simpa using isF32_zero)
+    · rw [if_neg hneg]
+      push Not at hneg
+      apply steF_eq hxqF
+      apply sq_resid_isF32 t hx (by omega) le_rfl c.zero_le_hi
+      rw [abs_of_nonneg hneg]
+      have : (c.hi : ℚ) + 1 ≤ pow2 24 := by rw [pow2_24]; exact_mod_cast hhi24
+      nlinarith
+  · rw [if_neg hle]
+    push Not at hle
+    have hsat : rc t (x / pow2 (c.integer - c.nsb)) 0 c.hi = c.hi := by
+      apply rc_sat_hi t c.zero_le_hi
+      rw [le_div_iff₀ hs0]; exact hle.le
+    rw [hsat]
+    have e5 : fmul 1 ((c.hi : ℚ) * pow2 (c.integer - c.nsb)) = (c.hi : ℚ) * pow2 (c.integer - c.nsb) := by
+      unfold fmul; rw [one_mul]; exact rnd32_of_isF32 htopF
+    rw [e5]
+    exact steF_eq htopF (by rw [sub_self]; exact isF32_zero)
+
 end QKV
